@@ -502,6 +502,12 @@ def case_rivavg(ctx, W, outs, nt, median):
     data_np = gen_data(ctx, W, nodata)
     o_np, outs = outs_arg(ctx, W, outs)
     kw = {} if nodata == -9999.0 and rng.random() < 0.5 else {"nodata": nodata}
+    nan_nd = (not median) and rng.random() < 0.25
+    data_call = data_np
+    if nan_nd:   # NaN as the nodata value: the same field with the empty cells holding NaN
+        data_call = np.where(data_np == data_np.dtype.type(nodata), np.nan, data_np).astype(data_np.dtype)
+        kw = {"nodata": float("nan")}
+        ctx.count("rivavg:nodata=NaN")
     if median:
         out = flw.subgrid_rivmed(o_np, data_np, mask=mask, direction=d, **kw)
         w_np = None
@@ -513,7 +519,7 @@ def case_rivavg(ctx, W, outs, nt, median):
             if rng.random() < 0.6:
                 w_np = w_np.reshape(W["shape"])
         try:
-            out = flw.subgrid_rivavg(o_np, data_np, weights=w_np, mask=mask, direction=d, **kw)
+            out = flw.subgrid_rivavg(o_np, data_call, weights=w_np, mask=mask, direction=d, **kw)
         except Exception as e:  # documented argument shapes must be accepted
             ctx.evaluations += 1
             ctx.fail({"op": "subgrid_rivavg", **W["env"], "outlets": outs, "direction": d,
@@ -522,10 +528,10 @@ def case_rivavg(ctx, W, outs, nt, median):
             return
         ctx.count("weights:" + ("none" if w_np is None else "2d" if w_np.ndim == 2 else "1d"))
     Dd, (data, (nd,)) = scaled(data_np, [nodata])
-    impl = [float(x) for x in np.asarray(out).ravel().tolist()]
     ddt = data_np.dtype
+    impl = [(float(ddt.type(nodata)) if (nan_nd and x != x) else float(x)) for x in np.asarray(out).ravel().tolist()]
     desc = {"op": "subgrid_rivmed" if median else "subgrid_rivavg", **W["env"], "outlets": outs, "direction": d,
-            "mask": None if mask is None else ints(mask), "nodata": nodata, "data_x%d" % Dd: data,
+            "mask": None if mask is None else ints(mask), "nodata": nodata, "nodata_is_nan": nan_nd, "data_x%d" % Dd: data,
             "data_dtype": ddt.name}
     if out.dtype != ddt:
         ctx.fail(desc, "spec", f"result dtype {out.dtype} != data dtype {ddt}")
